@@ -664,6 +664,102 @@ impl OrderBook {
     }
 }
 
+/// Read-only views of the exchange state for the verification harness in /verif.
+/// Compiled only with the off-by-default `verif` feature; clones, never mutates.
+#[cfg(feature = "verif")]
+#[derive(Clone, Debug, PartialEq)]
+pub enum VerifOrderKind {
+    LimitIoc,
+    LimitGtc,
+    LimitAlo,
+    Trigger {
+        trigger_px: f64,
+        is_market: bool,
+        is_tp: bool,
+    },
+}
+
+#[cfg(feature = "verif")]
+#[derive(Clone, Debug, PartialEq)]
+pub struct VerifOrderView {
+    pub asset: u64,
+    pub is_buy: bool,
+    pub limit_px: String,
+    pub sz: String,
+    pub reduce_only: bool,
+    pub cloid: Option<String>,
+    pub kind: VerifOrderKind,
+}
+
+#[cfg(feature = "verif")]
+impl Order {
+    pub fn verif_view(&self) -> VerifOrderView {
+        let kind = match &self.order_type {
+            OrderType::Limit(limit) => match limit.tif {
+                TimeInForce::Ioc => VerifOrderKind::LimitIoc,
+                TimeInForce::Gtc => VerifOrderKind::LimitGtc,
+                TimeInForce::Alo => VerifOrderKind::LimitAlo,
+            },
+            OrderType::Trigger(trigger) => VerifOrderKind::Trigger {
+                trigger_px: trigger.trigger_px,
+                is_market: trigger.is_market,
+                is_tp: matches!(trigger.tpsl, TriggerType::Tp),
+            },
+        };
+        VerifOrderView {
+            asset: self.asset,
+            is_buy: self.is_buy,
+            limit_px: self.limit_px.clone(),
+            sz: self.sz.clone(),
+            reduce_only: self.reduce_only,
+            cloid: self.cloid.clone(),
+            kind,
+        }
+    }
+}
+
+#[cfg(feature = "verif")]
+#[derive(Clone, Debug)]
+pub struct VerifRestingOrder {
+    pub order_id: OrderId,
+    pub order: VerifOrderView,
+    pub attempted_execution: bool,
+}
+
+#[cfg(feature = "verif")]
+#[derive(Clone, Debug)]
+pub struct VerifSnapshot {
+    /// Resting orders, front of the book first.
+    pub book: Vec<VerifRestingOrder>,
+    /// Orders submitted since the last tick, in arrival order.
+    pub buffer: Vec<VerifOrderView>,
+    /// Id the next admitted order will receive.
+    pub next_id: u64,
+    /// Every fill produced so far.
+    pub trade_log: Vec<Fill>,
+}
+
+#[cfg(feature = "verif")]
+impl JuraV1 {
+    pub fn verif_snapshot(&self) -> VerifSnapshot {
+        VerifSnapshot {
+            book: self
+                .orderbook
+                .inner
+                .iter()
+                .map(|o| VerifRestingOrder {
+                    order_id: o.order_id,
+                    order: o.order.verif_view(),
+                    attempted_execution: o.attempted_execution,
+                })
+                .collect(),
+            buffer: self.order_buffer.iter().map(|o| o.verif_view()).collect(),
+            next_id: self.orderbook.last_inserted,
+            trade_log: self.trade_log.clone(),
+        }
+    }
+}
+
 #[cfg(test)]
 mod tests {
     use super::{JuraV1, Order};
